@@ -11,7 +11,7 @@ LEVEL = 'exploration'
 BUDGET = {'quick': (30000, 80.0), 'thorough': (400000, 1500.0)}
 RULE = ('bus monitor (credit per session, pacing) over seeded runs of: (a) real stack as originator vs the reference responder granting 1..limit with '
         '0-3 holds, (b) real stack as responder vs the reference originator with RTS limit 1..255, (c) two real stacks with max_cmdt 1..255 each, '
-        '(d) BAM from an otherwise idle stack; minimum_tp_bam_dt_interval in {default, 10..190 ms}, minimum_tp_rts_cts_dt_interval in {None, 1..50 ms}; '
+        '(d) BAM from a stack that is otherwise idle or has a second send session that only waits, (e) a responder that dies while holding the connection; minimum_tp_bam_dt_interval in {default, 10..190 ms}, minimum_tp_rts_cts_dt_interval in {None, 1..50 ms}; '
         'both data link layers; latency [0, 5 ms]. non-trivial = at least one data packet was judged by the monitor; distinct = distinct scenario JSON')
 FAULT_COUNTERS = {'legal peer freedom: hold CTS seen': 'holds_seen'}
 REQUIRED_PROBES = ['dt_judged', 'cts_judged', 'holds_seen', 'bam_gaps_judged', 'cmdt_gaps_judged']
@@ -140,7 +140,7 @@ class FlowMonitor:
 def generate(rng, tier, i):
     dll = rng.choice(['j1939-21', 'j1939-22'])
     fd = dll == 'j1939-22'
-    kind = rng.choice(['a', 'a', 'b', 'b', 'c', 'bam'])
+    kind = rng.choice(['a', 'a', 'b', 'b', 'c', 'bam', 'bam', 'a_dies'])
     length = gen.len22(rng, 3000) if fd else max(9, gen.len21(rng))
     if kind == 'bam' and length > (40 * (60 if fd else 7)):
         length = rng.randrange(61 if fd else 9, 40 * (60 if fd else 7))
@@ -164,6 +164,14 @@ def generate(rng, tier, i):
                                   'rts_limit': rng.choice([1, 2, 3, 8, 255, rng.randint(1, 255)]), 'dt_gap_ms': rng.choice([(0, 0), (0, 5), (50, 190)])}}
         if length > 600:
             scn['peer']['policy'].update({'reply_ms': (0, 5), 'dt_gap_ms': (0, 2), 'hold_gap_ms': (1, 50)})
+        if kind == 'a_dies':
+            # the responder sends 1-3 holds (at the start or at a window border) and then falls silent: no data may follow
+            scn['kind'] = 'a'
+            scn['peer']['policy'].update({'holds': (1, 3), 'silent_after_holds': True, 'window': rng.choice([1, 2, None])})
+            scn['dies'] = True
+        if kind == 'bam' and rng.random() < 0.5:
+            # a second send session that just waits (RTS to an absent node) must not disturb the pacing of the broadcast
+            scn['waiting_session'] = {'at_ms': rng.choice([0, 60, 120]), 'len': rng.choice([20, 100])}
     return scn
 
 
@@ -196,6 +204,10 @@ def execute(scn, keep_log=False, hook=None):
         ok = st.cas[0].send_pgn(0, 0xD0, P_ADDR, 6, list(data))
     elif kind == 'bam':
         ok = st.cas[0].send_pgn(0, 0xFE, 0xCA, 6, list(data))
+        ws = scn.get('waiting_session')
+        if ws:
+            n_ws = max(ws['len'], 61) if fd else ws['len']
+            sim.after(ws['at_ms'] * 1_000_000, lambda: st.cas[0].send_pgn(0, 0xD3, 0x77, 6, payload(9, n_ws)), 'op')
     else:
         ok = peer.send_message(S_ADDR, 0, 0xD0, S_ADDR, data)
     if ok is not True:
@@ -208,7 +220,7 @@ def execute(scn, keep_log=False, hook=None):
     if kind == 'bam':
         gap = stacks[S_ADDR]['bam_interval'] / 1e9
     iv = max([s.get('rts_cts_interval') or 0 for s in scn['stacks']])
-    cap = 1.0 + npk * (gap * 2 + hold + iv + 0.012) * 1.05
+    cap = 1.0 + npk * (gap * 2 + hold + iv + 0.012) * 1.05 + (2.0 if scn.get('dies') or scn.get('waiting_session') else 0)
     for _ in range(int(cap / 0.1) + 1):
         sim.run_for(0.1)
         if not common.busy(w) and (peer is None or (not peer.rx and not peer.tx)) and sim.now - t0 > 300_000_000:
@@ -218,7 +230,7 @@ def execute(scn, keep_log=False, hook=None):
     viol += mon.viol
     # the transfer must also have completed (otherwise the monitor judged little)
     if not viol:
-        if kind == 'a' and not any(r['data'] == bytes(data) for r in peer.received):
+        if kind == 'a' and not scn.get('dies') and not any(r['data'] == bytes(data) for r in peer.received):
             viol.append({'clause': 'transfer-incomplete', 'rank': 3, 'msg': 'reference responder did not receive the message: %s' % (peer.protocol_errors[:2],)})
         if kind == 'b' and not any(d['data'] == bytes(data) for d in w.deliveries if d['stack'] == 'S'):
             viol.append({'clause': 'transfer-incomplete', 'rank': 3, 'msg': 'stack did not deliver the message of the reference originator'})
